@@ -161,6 +161,11 @@ class AttrEffects:
                             acc.setdefault(n.attr, []).append(par._parent)
                         if isinstance(par, ast.AugAssign) and par.target is n:
                             writes.setdefault(n.attr, []).append(n)
+                elif isinstance(n, ast.Call) and isinstance(n.func, ast.Attribute) and n.func.attr == 'pop' \
+                        and isinstance(n.func.value, ast.Attribute) and n.func.value.attr == '__dict__' \
+                        and isinstance(n.func.value.value, ast.Name) and n.func.value.value.id == sn and n.args \
+                        and isinstance(n.args[0], ast.Constant) and isinstance(n.args[0].value, str):
+                    writes.setdefault(n.args[0].value, []).append(n)
                 elif isinstance(n, ast.Call) and isinstance(n.func, ast.Name) and n.func.id in ('setattr', 'getattr', 'hasattr') \
                         and n.args and isinstance(n.args[0], ast.Name) and n.args[0].id == sn and len(n.args) > 1:
                     a = n.args[1]
